@@ -228,14 +228,14 @@ static void pretty(char* out, size_t cap, const char* s) {
 
 /* ---- sinks --------------------------------------------------------------------------- */
 
-static var OUT, TXT, DST[2];      /* heap Strings made with new_raw: not collector-managed */
+static var OUT, TXT, DST[4];      /* heap Strings made with new_raw: not collector-managed */
 static FILE* tmpf;
 static int verbose;
 
 #define TEXTCAP 4096
 static char text_a[TEXTCAP], text_b[TEXTCAP], expect_text[TEXTCAP], got_text[TEXTCAP];
 
-static uint64_t n_nontrivial_seen;
+static uint64_t n_nontrivial_seen, n_repeat_cases;
 
 struct value { int type; int64_t i; double f; const char* s; };
 
@@ -546,6 +546,7 @@ static void drive(int type) {
   int np = type == T_INT ? NIPAIR : type == T_FLOAT ? NFPAIR : NSPAIR;
   int do_pairs = (int)vf_param_i("pairs", 1);
   int r_T = -1, r_w = 0, r_r = 0, r_k = 0, r_p = 0, r_i = 0, r_j = 0, r_s = 0;
+  if (vf.replay && vf.replay[0] == 'Q') return;          /* a repeated-argument case: see drive_repeat */
   if (vf.replay) {
     char tc = 0;
     if (sscanf(vf.replay, " %c w=%d r=%d k=%d p=%d i=%d j=%d s=%d", &tc, &r_w, &r_r, &r_k, &r_p, &r_i, &r_j, &r_s) != 8) { fprintf(stderr, "replay: cannot parse case '%s'\n", vf.replay); _exit(2); }
@@ -593,6 +594,197 @@ static void drive(int type) {
   vf_watchdog(0);
 }
 
+
+/* ---- argument lists that repeat an object ----------------------------------------------
+** One print_to call whose argument list contains the SAME object more than once, with
+** something after the repetition: (x,x), (x,x,y), (x,y,x), (x,y,y,z), joined by a separator,
+** into a String and a File; read back with one scan_from call into pairwise distinct
+** destination objects.  Pattern 4 writes three distinct objects (x,y,z) and reads them with
+** the same DESTINATION object twice, (d,d,e): the later value must win in d and e must
+** still be filled.  Every slot must come back as the value that was printed there.
+** Case id: "Q<T> w r k p i j s q" (q = pattern).
+*/
+
+#define NPAT 5
+static const int pat_n[NPAT]      = { 2, 3, 3, 4, 3 };
+static const int pat_obj[NPAT][4] = { {0,0,0,0}, {0,0,1,0}, {0,1,0,0}, {0,1,1,2}, {0,1,2,0} };   /* slot -> written object */
+static const int pat_dst[NPAT][4] = { {0,1,0,0}, {0,1,2,0}, {0,1,2,0}, {0,1,2,3}, {0,0,1,0} };   /* slot -> destination object */
+static const char* pat_name[NPAT] = { "(x,x)", "(x,x,y)", "(x,y,x)", "(x,y,y,z)", "(x,y,z) read into (d,d,e)" };
+
+static char rtext[3][TEXTCAP / 4];
+
+static int run_repeat(int type, const struct value* vals, const struct spec* w, const struct spec* r, int sk, int start, int sepi, int q) {
+  const char* T = tname[type];
+  var fo = $(File, NULL);
+  var oi[3] = { $I(0), $I(0), $I(0) }; var of[3] = { $F(0.0), $F(0.0), $F(0.0) }; var os[3] = { $S(""), $S(""), $S("") };
+  var di[4] = { $I(0), $I(0), $I(0), $I(0) }; var df[4] = { $F(0.0), $F(0.0), $F(0.0), $F(0.0) };
+  var obj[3], dst[4];
+  int n = pat_n[q];
+  const char* sep = SEP[sepi];
+  const char* filler = start ? "##" : "";
+  char label_feat[48]; snprintf(label_feat, sizeof label_feat, "repeated-argument%s", q == 4 ? "-destination" : "");
+  char kase[700];
+  {
+    char d[3][120];
+    for (int k = 0; k < 3; k++) {
+      if (type == T_INT) snprintf(d[k], 120, "%" PRId64, vals[k].i);
+      else if (type == T_FLOAT) snprintf(d[k], 120, "%.17g", vals[k].f);
+      else { char pp[100]; pretty(pp, sizeof pp, vals[k].s); snprintf(d[k], 120, "\"%s\"", pp); }
+    }
+    char sp[16]; pretty(sp, sizeof sp, sep);
+    snprintf(kase, sizeof kase, "%s | %s -> %s via %s at position %d, argument list %s joined by \"%s\": x=%s y=%s z=%s", caseid, w->name, r->name, skname[sk], start, pat_name[q], sp, d[0], d[1], d[2]);
+  }
+  if (vf.replay) printf("replaying %s\n", kase);
+  for (int k = 0; k < 3; k++) obj[k] = mkval(&vals[k], oi[k], of[k], os[k]);
+  volatile int wpos = -1;
+  var e;
+  /* text of each object written alone */
+  for (int k = 0; k < 3; k++) {
+    assign(TXT, $S(""));
+    e = VF_CATCH(wpos = print_to(TXT, 0, w->fmt, obj[k]));
+    if (e) { vf_violation(LBL(T, w->name, label_feat, "write-raises"), kase, "writing raised %s", vf_exc_name(e)); return 1; }
+    snprintf(rtext[k], sizeof rtext[k], "%s", c_str(TXT));
+  }
+  size_t o = (size_t)snprintf(expect_text, sizeof expect_text, "%s", filler);
+  char fmtw[96] = "", fmtr[96] = "";
+  for (int k = 0; k < n; k++) {
+    o += (size_t)snprintf(expect_text + o, sizeof expect_text - o, "%s%s", k ? sep : "", rtext[pat_obj[q][k]]);
+    snprintf(fmtw + strlen(fmtw), sizeof fmtw - strlen(fmtw), "%s%s", k ? sep : "", w->fmt);
+    snprintf(fmtr + strlen(fmtr), sizeof fmtr - strlen(fmtr), "%s%s", k ? sep : "", r->fmt);
+  }
+  size_t total = strlen(expect_text);
+
+  FILE* wf = NULL; char* membuf = NULL; size_t memlen = 0; var out;
+  if (sk == SK_STR) { assign(OUT, $S((char*)filler)); out = OUT; }
+  else {
+    if (sk == SK_TMP) { rewind(tmpf); if (ftruncate(fileno(tmpf), 0) != 0) { perror("ftruncate"); _exit(2); } wf = tmpf; }
+    else { wf = open_memstream(&membuf, &memlen); if (!wf) { perror("open_memstream"); _exit(2); } }
+    fputs(filler, wf);
+    ((struct File*)fo)->file = wf; out = fo;
+  }
+  var a0 = obj[pat_obj[q][0]], a1 = obj[pat_obj[q][1]], a2 = obj[pat_obj[q][2]], a3 = obj[pat_obj[q][3]];
+  if (n == 2) e = VF_CATCH(wpos = print_to(out, start, fmtw, a0, a1));
+  else if (n == 3) e = VF_CATCH(wpos = print_to(out, start, fmtw, a0, a1, a2));
+  else e = VF_CATCH(wpos = print_to(out, start, fmtw, a0, a1, a2, a3));
+  size_t gotlen = 0;
+  if (sk == SK_STR) { snprintf(got_text, sizeof got_text, "%s", c_str(OUT)); gotlen = strlen(c_str(OUT)); }
+  else if (sk == SK_TMP) {
+    fflush(tmpf); long nn = ftell(tmpf); if (nn < 0 || nn >= TEXTCAP) nn = nn < 0 ? 0 : TEXTCAP - 1;
+    ssize_t g = pread(fileno(tmpf), got_text, (size_t)nn, 0); if (g < 0) g = 0; got_text[g] = 0; gotlen = (size_t)g;
+  } else {
+    fflush(wf); gotlen = memlen < TEXTCAP - 1 ? memlen : TEXTCAP - 1; memcpy(got_text, membuf, gotlen); got_text[gotlen] = 0;
+    fclose(wf); free(membuf); wf = NULL;
+  }
+  if (e) { vf_violation(LBL(T, w->name, label_feat, "write-raises"), kase, "print_to(out, %d, \"%s\", ...) raised %s", start, fmtw, vf_exc_name(e)); return 1; }
+  if (verbose) { char pp[600]; pretty(pp, sizeof pp, got_text); printf("  written to %s: \"%s\" (writer returned %d)\n", skname[sk], pp, (int)wpos); }
+  if (gotlen != total || memcmp(got_text, expect_text, total) != 0) {
+    char p1[400], p2[400]; pretty(p1, sizeof p1, got_text); pretty(p2, sizeof p2, expect_text);
+    vf_violation(LBL(T, w->name, label_feat, "text"), kase, "%s holds \"%s\"; the arguments shown one by one and joined give \"%s\"", skname[sk], p1, p2);
+    return 1;
+  }
+  if (wpos != (int)total) { vf_violation(LBL(T, w->name, label_feat, "write-returned-position"), kase, "writer returned %d, %zu characters are in the sink", (int)wpos, total); return 1; }
+
+  /* read back */
+  FILE* rf = NULL; var src;
+  if (sk == SK_STR) src = OUT;
+  else {
+    if (sk == SK_TMP) rf = tmpf;
+    else { rf = fmemopen(got_text, total, "r"); if (!rf) { perror("fmemopen"); _exit(2); } }
+    fseek(rf, start, SEEK_SET);
+    ((struct File*)fo)->file = rf; src = fo;
+  }
+  for (int k = 0; k < 4; k++) {
+    ((struct Int*)di[k])->val = -7777777; ((struct Float*)df[k])->val = -7777777.25;
+    if (type == T_INT) dst[k] = di[k]; else if (type == T_FLOAT) dst[k] = df[k];
+    else { dst[k] = DST[k]; assign(dst[k], $S("@@")); if (r->cls == 1) resize(dst[k], 700); }
+  }
+  var d0 = dst[pat_dst[q][0]], d1 = dst[pat_dst[q][1]], d2 = dst[pat_dst[q][2]], d3 = dst[pat_dst[q][3]];
+  volatile int rpos = -1;
+  if (n == 2) e = VF_CATCH(rpos = scan_from(src, start, fmtr, d0, d1));
+  else if (n == 3) e = VF_CATCH(rpos = scan_from(src, start, fmtr, d0, d1, d2));
+  else e = VF_CATCH(rpos = scan_from(src, start, fmtr, d0, d1, d2, d3));
+  long fpos = rf ? ftell(rf) : -1;
+  if (rf && sk == SK_MEM) fclose(rf);
+  if (e) { char sym[64]; snprintf(sym, sizeof sym, "raises-%s", vf_exc_name(e)); vf_violation(LBL(T, r->name, label_feat, sym), kase, "scan_from(in, %d, \"%s\", ...) raised %s", start, fmtr, vf_exc_name(e)); return 1; }
+  /* each destination holds the value of the LAST slot read into it */
+  for (int d = 0; d < 4; d++) {
+    int last = -1;
+    for (int k = 0; k < n; k++) if (pat_dst[q][k] == d) last = k;
+    if (last < 0) continue;
+    const struct value* v = &vals[pat_obj[q][last]];
+    char which[48]; snprintf(which, sizeof which, "argument %d of %d", last + 1, n);
+    /* judge_value labels by the value's own feature; here the feature is the shape of the argument list */
+    if (type == T_INT && c_int(dst[d]) != v->i) { vf_violation(LBL(T, r->name, label_feat, "value"), kase, "%s: printed %" PRId64 ", read back %" PRId64, which, v->i, c_int(dst[d])); return 1; }
+    if (type == T_FLOAT) {
+      double got = c_float(dst[d]); const char* txt = rtext[pat_obj[q][last]];
+      double want = r->cls == 1 ? (double)strtof(txt, NULL) : strtod(txt, NULL);
+      if (memcmp(&got, &want, sizeof got) != 0) { vf_violation(LBL(T, r->name, label_feat, "value"), kase, "%s: printed \"%s\", read back %.17g", which, txt, got); return 1; }
+    }
+    if (type == T_STR && strcmp(c_str(dst[d]), v->s) != 0) {
+      char p1[120], p2[120]; pretty(p1, sizeof p1, v->s); pretty(p2, sizeof p2, c_str(dst[d]));
+      vf_violation(LBL(T, r->name, label_feat, "value"), kase, "%s: printed \"%s\", read back \"%s\"", which, p1, p2); return 1;
+    }
+  }
+  if (verbose) printf("  read back all %d arguments; positions %d, stream %ld\n", n, (int)rpos, fpos);
+  if (rpos != (int)total) { vf_violation(LBL(T, r->name, label_feat, "position"), kase, "reader returned %d; start %d + %zu characters written = %zu", (int)rpos, start, total - start, total); return 1; }
+  if (rf && fpos != (long)total) { vf_violation(LBL(T, r->name, label_feat, "stream-position"), kase, "after reading the File is at offset %ld, %zu characters were written", fpos, total); return 1; }
+  return 0;
+}
+
+static void drive_repeat(int type) {
+  if (!vf_param_i("repeat", 1)) return;
+  int np = type == T_INT ? NIPAIR : type == T_FLOAT ? NFPAIR : NSPAIR;
+  int cap = (int)vf_param_i("repeatvals", type == T_STR ? 15 : 6);
+  if (np > cap) np = cap;
+  if (np < 3) return;
+  int r_T = -1, r_w = 0, r_r = 0, r_k = 0, r_p = 0, r_i = 0, r_j = 0, r_s = 0, r_q = 0;
+  if (vf.replay) {
+    char tc = 0;
+    if (vf.replay[0] != 'Q') return;
+    if (sscanf(vf.replay, "Q%c w=%d r=%d k=%d p=%d i=%d j=%d s=%d q=%d", &tc, &r_w, &r_r, &r_k, &r_p, &r_i, &r_j, &r_s, &r_q) != 9) { fprintf(stderr, "replay: cannot parse case '%s'\n", vf.replay); _exit(2); }
+    r_T = tc == 'I' ? T_INT : tc == 'F' ? T_FLOAT : T_STR;
+    if (r_T != type) return;
+    verbose = 1;
+  }
+  static char phase[64];
+  for (int i = 0; i < np; i++) for (int j = 0; j < np; j++) {
+    if (i == j) continue;
+    int k = (j + 1) % np; while (k == i || k == j) k = (k + 1) % np;
+    int idx[3] = { i, j, k };
+    struct value vals[3];
+    for (int t = 0; t < 3; t++) {
+      vals[t].type = type; vals[t].i = 0; vals[t].f = 0; vals[t].s = NULL;
+      if (type == T_INT) vals[t].i = IV[IPAIR[idx[t]]];
+      else if (type == T_FLOAT) vals[t].f = FV[FPAIR[idx[t]]];
+      else vals[t].s = SV[idx[t]];
+    }
+    for (int wi = 0; wi < NWR[type]; wi++) for (int ri = 0; ri < NRD[type]; ri++) {
+      const struct spec* w = &WR[type][wi]; const struct spec* r = &RD[type][ri];
+      if (!w->fmt || !r->fmt) continue;                 /* one print_to / scan_from call carries the whole argument list */
+      int ok = 1;
+      for (int t = 0; t < 3; t++) if (!compatible(type, w, r, &vals[t])) ok = 0;
+      if (!ok) continue;
+      int raw = (type == T_STR && r->cls == 1);
+      if (raw) for (int t = 0; t < 3; t++) if (!*vals[t].s || strpbrk(vals[t].s, " \n\t")) ok = 0;
+      if (!ok) continue;
+      snprintf(phase, sizeof phase, "%s/%s", tname[type], r->name); vf.phase = phase;
+      for (int q = 0; q < NPAT; q++) for (int si = 0; si < NEL(SEP); si++) for (int ki = 0; ki < nsinks; ki++) for (int start = 0; start <= 2; start += 2) {
+        int sk = sinks[ki];
+        if (raw && si == 0) continue;
+        if (vf.replay && !(wi == r_w && ri == r_r && sk == r_k && start == r_p && i == r_i && j == r_j && si == r_s && q == r_q)) continue;
+        snprintf(caseid, sizeof caseid, "Q%c w=%d r=%d k=%d p=%d i=%d j=%d s=%d q=%d", tchar[type], wi, ri, sk, start, i, j, si, q);
+        vf_set_cur("%s", caseid);
+        vf_watchdog(30);
+        run_repeat(type, vals, w, r, sk, start, si, q);
+        vf.evaluations++; vf.executions++; vf.nontrivial++;
+        n_repeat_cases++;
+        if (vf_want_sample()) vf_sample("%s | %s -> %s, argument list %s", caseid, w->name, r->name, pat_name[q]);
+      }
+    }
+  }
+  vf_watchdog(0);
+}
+
 int main(int argc, char** argv) {
   vf_init(argc, argv);
   NWR[0] = NEL(IW); NWR[1] = NEL(FW); NWR[2] = NEL(SW);
@@ -609,16 +801,17 @@ int main(int argc, char** argv) {
   build_strings((int)vf_param_i("strlen", 3), (int)vf_param_i("pairlen", 1));
 
   OUT = new_raw(String, $S("")); TXT = new_raw(String, $S(""));
-  DST[0] = new_raw(String, $S("")); DST[1] = new_raw(String, $S(""));
+  for (int i = 0; i < 4; i++) DST[i] = new_raw(String, $S(""));
   tmpf = tmpfile();
   if (!tmpf) { perror("tmpfile"); _exit(2); }
 
-  if (!strcmp(type, "int") || !strcmp(type, "all")) drive(T_INT);
-  if (!strcmp(type, "float") || !strcmp(type, "all")) drive(T_FLOAT);
-  if (!strcmp(type, "string") || !strcmp(type, "all")) drive(T_STR);
+  if (!strcmp(type, "int") || !strcmp(type, "all")) { drive(T_INT); drive_repeat(T_INT); }
+  if (!strcmp(type, "float") || !strcmp(type, "all")) { drive(T_FLOAT); drive_repeat(T_FLOAT); }
+  if (!strcmp(type, "string") || !strcmp(type, "all")) { drive(T_STR); drive_repeat(T_STR); }
   vf_cur_valid = 0;
 
   vf.states = 0; vf.transitions = 0;
+  vf_extra("repeated_argument_cases", "%" PRIu64, n_repeat_cases);
   vf_extra("grid", "\"%d Int values (%d in pairs), %d Float values (%d in pairs), %d strings (%d in pairs); %d/%d/%d writers and %d/%d/%d readers; sinks %s; start positions 0 and 2; separators \\\", \\\" and \\\" \\\"\"",
     NIV, NIPAIR, NFV, NFPAIR, NSV, NSPAIR, NWR[0], NWR[1], NWR[2], NRD[0], NRD[1], NRD[2], sk);
   vf_finish();
